@@ -7,9 +7,18 @@
     burst <node> <k>            -> seen=<c>/<n>      k small silences + k small log entries created back-to-back on one node;
                                                      c = nodes holding all of them within the settle time
     join                        -> has=<m>/<m> members=<k>
-    rejoin <node>               -> has=<m>/<m> members=<k>     crash without leave + a new instance on the same address
+    rejoin <node> [first]       -> has=<m>/<m> members=<k> pos=<name>:<position>:<member names, sorted, `.`-joined>,…
+                                                     crash without leave + a new instance on the same address (`first`: under a
+                                                     name that sorts before every other member's); pos = every node's
+                                                     Position() beside the members as that node sees them
+    solo                        -> ok                an instance configured with no peers
+    dialer <j>                  -> members=<k>       an instance whose only configured peer is node j, reconnect disabled
+    crash <node>                -> members=<k>       crash without leave; k = cluster size once the others declared it dead
+    revive <node>               -> has=<m>/<m> members=<k> pos=…   a new instance on the crashed node's address that knows no
+                                                     peer: the dialer's periodic refresh must join it again
 -/
 import Driver.Util
+import AM.Model.Registry
 
 namespace Driver.Mesh
 open Driver
@@ -21,6 +30,29 @@ def frac (s : String) : Nat × Nat :=
   match s.splitOn "/" with
   | [a, b] => (toNat! a, toNat! b)
   | _ => (0, 1)
+
+/-- C08 (`AM.Cluster.healthy_no_duplicate` staggers the instances of a healthy cluster by their position): a node's
+    position is `AM.Registry.position` of the members as memberlist reports them to that node — the number of live
+    members whose name sorts before its own — so that nodes which agree on the members hold pairwise distinct
+    positions (`AM.Registry.positions_distinct`). -/
+def posMsgs (tok : String) : List Msg :=
+  let entries := (splitList "," tok).filterMap fun e =>
+    match e.splitOn ":" with
+    | [name, pos, names] => some (name, pos, splitList "." names)
+    | _ => none
+  let perNode := entries.filterMap fun (name, pos, names) =>
+    if pos = "?" ∨ !names.contains name then none else
+    let want := AM.Registry.position (names.map fun n => (n, "")) name
+    if toNat! pos = want then none else
+      some (Msg.propfail "positions_distinct" "position-not-index-in-members"
+        s!"node {name} reports position {pos}, its members are {joinList "." names}: position {want} expected")
+  let agree : Bool := match entries with
+    | [] => true
+    | (_, _, n0) :: rest => rest.all fun (_, _, n) => n == n0
+  let ps := entries.map (·.2.1)
+  let dup := if agree && !ps.contains "?" && ps.eraseDups.length != ps.length then
+    [Msg.propfail "positions_distinct" "position-not-index-in-members" s!"nodes that agree on the members share a position: {tok}"] else []
+  (perNode ++ dup).take 2 ++ (if entries.any (fun (name, _, names) => names.head? = some name ∧ name.startsWith "00RESTARTED") then [.tag "rejoin:new-name-sorts-first"] else [])
 
 def step (σ : St) (op obs : List String) : St × List Msg :=
   match op, obs with
@@ -35,11 +67,26 @@ def step (σ : St) (op obs : List String) : St × List Msg :=
       [Msg.propfail (if size = "big" then "oversize_reaches_every_peer" else "broadcast_routed_once")
          (if size = "big" then "oversize-lost" else "update-lost") s!"{kind} update ({size}) merged by {c} of {n} nodes"] else []
     (σ, expectEq "seen.n" (toString σ.n) (toString n) ++ pf ++ [.tag s!"{kind}:{size}"])
-  | ["rejoin", _], [has, members] =>
+  | "rejoin" :: _, has :: members :: rest =>
     -- a member restarted on its address under a new name: it is a live peer like any other (the member count is unchanged)
     let (c, n) := frac ((kv [has] "has").getD "0/1")
     let pf := if c ≠ n then [Msg.propfail "full_state_superset" "rejoin-incomplete" s!"the restarted instance holds {c} of {n} updates"] else []
-    (σ, pf ++ expectEq "rejoin.members" (toString σ.n) ((kv [members] "members").getD "?") ++ [.tag "rejoin"])
+    (σ, pf ++ posMsgs ((kv rest "pos").getD "-") ++ expectEq "rejoin.members" (toString σ.n) ((kv [members] "members").getD "?") ++ [.tag "rejoin"])
+  | ["solo"], [_] => ({ σ with n := σ.n + 1 }, [.tag "solo"])
+  | ["dialer", _], [members] =>
+    ({ σ with n := σ.n + 1 }, expectEq "dialer.members" (toString (σ.n + 1)) ((kv [members] "members").getD "?") ++ [.tag "dialer"])
+  | ["crash", _], [members] =>
+    ({ σ with n := σ.n - 1 }, expectEq "crash.members" (toString (σ.n - 1)) ((kv [members] "members").getD "?") ++ [.tag "crash"])
+  | ["revive", _], has :: members :: rest =>
+    let σ := { σ with n := σ.n + 1 }
+    -- C19 "a re-joining instance obtains the complete current state through the full-state exchange", join order
+    -- "only the other side is configured with this instance": the configured peer is dialled again by the periodic refresh
+    let (c, n) := frac ((kv [has] "has").getD "0/1")
+    let m := (kv [members] "members").getD "?"
+    let pf := if c ≠ n ∨ m ≠ toString σ.n then
+      [Msg.propfail "full_state_superset" "configured-peer-not-redialled"
+        s!"a crashed instance restarted on its address without configured peers: after two refresh intervals of the instance configured with it, it holds {c} of {n} updates and sees {m} of {σ.n} members"] else []
+    (σ, pf ++ posMsgs ((kv rest "pos").getD "-") ++ [.tag "revive"])
   | ["fact", _], [v] =>
     (σ, (if v = "ok" then [] else [Msg.propfail "full_state_superset" "join-before-state-registration"
           s!"app/app.go: {v} — the states must be registered with the peer (AddState) before peer.Join: the join's full-state exchange is dropped for unregistered states (AM.Gossip.unknown_key_inert)"])
